@@ -190,6 +190,8 @@ def gen_case(rng, tier, index):
     objs = [gen_obj(rng, 0, 3 if not big else 4) for _ in range(ntop)]
     case = {"objs": objs, "options": [rng.choice([1, 1, 2, 3, 1024]), rng.choice([1.5, 2.0, 1.1])],
             "snap_at": sorted(rng.sample(range(0, 400), 3)), "mode": "well"}
+    if index % 10 == 7:
+        return gen_lb_case(rng, tier)
     if index % 5 == 4:
         case["mode"] = "ill"
         case["ill"] = rng.choice(ILL)
@@ -202,6 +204,274 @@ def gen_case(rng, tier, index):
         case["at"] = [rng.randint(-len(vals), len(vals) - 1) for _ in range(rng.randint(1, 3))]
         case["extend"] = rng.random() < 0.5
     return case
+
+
+# ---------------------------------------------------------------- Form-driven LayoutBuilder
+
+LB_PRIMS = ["int64", "float64", "bool"]
+
+
+def gen_lb_type(rng, depth=0):
+    """any nesting of the supported node classes"""
+    r = rng.random()
+    if depth >= 3:
+        r *= 0.4
+    if r < 0.36:
+        return gen.P(rng.choice(LB_PRIMS))
+    if r < 0.42:
+        return {"t": "string"}
+    if r < 0.62:
+        return {"t": "list", "e": gen_lb_type(rng, depth + 1)}
+    if r < 0.70:
+        return {"t": "regular", "e": gen_lb_type(rng, depth + 1), "size": rng.choice([1, 2, 3])}
+    if r < 0.82:
+        e = gen_lb_type(rng, depth + 1)
+        return e if e["t"] == "option" else {"t": "option", "e": e}
+    if r < 0.93:
+        n = rng.choice([1, 2, 3])
+        return {"t": "record", "fields": [gen_lb_type(rng, depth + 1) for _ in range(n)],
+                "keys": rng.choice([None, ["x", "y", "z"][:n]])}
+    arms = []
+    while len(arms) < 2:
+        a = gen_lb_type(rng, depth + 1)
+        if a["t"] not in ("union", "option"):
+            arms.append(a)
+    return {"t": "union", "arms": arms}
+
+
+def gen_lb_simple(rng):
+    """the shapes the upstream tests of this (experimental) class demonstrate: one structural node over leaves, plus
+    list-of-records whose fields are leaves or lists of leaves"""
+    leaf = lambda: rng.choice([gen.P(rng.choice(LB_PRIMS)), gen.P(rng.choice(LB_PRIMS)), {"t": "string"}])   # noqa: E731
+    prim = lambda: gen.P(rng.choice(LB_PRIMS))    # noqa: E731
+    k = rng.choice(["leaf", "list", "regular", "option", "record", "union", "listrecord"])
+    if k == "leaf":
+        return leaf()
+    if k == "list":
+        return {"t": "list", "e": leaf()}
+    if k == "regular":
+        return {"t": "regular", "e": prim(), "size": rng.choice([1, 2, 3])}
+    if k == "option":
+        return {"t": "option", "e": prim()}
+    if k == "record":
+        n = rng.choice([1, 2, 3])
+        return {"t": "record", "fields": [prim() for _ in range(n)], "keys": rng.choice([None, ["x", "y", "z"][:n]])}
+    if k == "union":
+        arms = rng.sample(LB_PRIMS, rng.choice([2, 3]))
+        return {"t": "union", "arms": [gen.P(a) for a in arms]}
+    n = rng.choice([1, 2])
+    return {"t": "list", "e": {"t": "record", "keys": ["x", "y"][:n],
+                               "fields": [rng.choice([prim(), {"t": "list", "e": prim()}]) for _ in range(n)]}}
+
+
+def lb_form(rng, T, simple=True):
+    """Form JSON (dict) for T with the node classes the LayoutBuilder supports, every node with its own form_key"""
+    counter = [0]
+
+    def key():
+        counter[0] += 1
+        return "node%d" % counter[0]
+
+    def rec(T):
+        t = T["t"]
+        if t == "prim":
+            return {"class": "NumpyArray", "primitive": T["d"], "form_key": key()}
+        if t == "string":
+            return {"class": "ListOffsetArray64", "offsets": "i64", "form_key": key(), "parameters": {"__array__": "string"},
+                    "content": {"class": "NumpyArray", "primitive": "uint8", "form_key": key(),
+                                "parameters": {"__array__": "char"}}}
+        if t == "list":
+            return {"class": "ListOffsetArray64", "offsets": "i64", "content": rec(T["e"]), "form_key": key()}
+        if t == "regular":
+            return {"class": "RegularArray", "size": T["size"], "content": rec(T["e"]), "form_key": key()}
+        if t == "option":
+            return {"class": "IndexedOptionArray64", "index": "i64", "content": rec(T["e"]), "form_key": key()}
+        if t == "record":
+            cs = [rec(f) for f in T["fields"]]
+            return {"class": "RecordArray", "contents": cs if T["keys"] is None else dict(zip(T["keys"], cs)),
+                    "form_key": key()}
+        if t == "union":
+            return {"class": "UnionArray8_64", "tags": "i8", "index": "i64", "contents": [rec(a) for a in T["arms"]],
+                    "form_key": key()}
+        raise ValueError(t)
+    f = rec(T)
+    wrap = rng.random() < 0.15 and (T["t"] == "prim" or not simple)
+    if wrap:
+        k = rng.choice(["UnmaskedArray", "ByteMaskedArray", "BitMaskedArray"])
+        f = {"class": k, "content": f, "form_key": key()}
+        if k != "UnmaskedArray":
+            f.update({"mask": "i8" if k == "ByteMaskedArray" else "u8", "valid_when": True})
+        if k == "BitMaskedArray":
+            f["lsb_order"] = False
+    return f, wrap
+
+
+def lb_commands(T, v, out):
+    t = T["t"]
+    if t == "prim":
+        out.append([{"int64": "int64", "float64": "float64", "bool": "boolean"}[T["d"]], v])
+    elif t == "string":
+        out.append(["string", v])
+    elif t == "list":
+        out.append(["begin_list"])
+        for x in v:
+            lb_commands(T["e"], x, out)
+        out.append(["end_list"])
+    elif t == "regular":
+        for x in v:
+            lb_commands(T["e"], x, out)
+    elif t == "option":
+        if v is None:
+            out.append(["null"])
+        else:
+            lb_commands(T["e"], v, out)
+    elif t == "record":
+        vs = v if isinstance(v, tuple) else [v[k] for k in T["keys"]]
+        for f, x in zip(T["fields"], vs):
+            lb_commands(f, x, out)
+    elif t == "union":
+        out.append(["tag", v.arm])
+        lb_commands(T["arms"][v.arm], v.v, out)
+
+
+def gen_lb_case(rng, tier):
+    cfg = gen.Cfg(tier)
+    cfg.nan = False
+    cfg.maxlen = 4
+    simple = rng.random() < 0.7
+    T = gen_lb_simple(rng) if simple else gen_lb_type(rng)
+    n = rng.choice([0, 1, 2, 3, 5, 8])
+    vals = gen.gen_values(rng, T, n, cfg)
+    cmds = []
+    for v in vals:
+        lb_commands(T, v, cmds)
+    form, unmasked = lb_form(rng, T, simple)
+    bounds = []
+    acc = 0
+    for v in vals:
+        one = []
+        lb_commands(T, v, one)
+        acc += len(one)
+        bounds.append(acc)
+    return {"mode": "layoutbuilder", "simple": simple, "T": T, "form": form, "cmds": cmds, "bounds": bounds,
+            "expected": _jsonable(gen.plain(vals)), "options": [rng.choice([8, 16, 1024]), rng.choice([1.5, 2.0, 1.1])],
+            "wrong": rng.random() < 0.25, "wrong_pos": rng.random()}
+
+
+def _jsonable(v):
+    if isinstance(v, tuple):
+        return {"__tuple__": [_jsonable(x) for x in v]}
+    if isinstance(v, list):
+        return [_jsonable(x) for x in v]
+    if isinstance(v, dict):
+        return dict((k, _jsonable(x)) for k, x in v.items())
+    return v
+
+
+def _unjson(v):
+    if isinstance(v, dict) and "__tuple__" in v:
+        return tuple(_unjson(x) for x in v["__tuple__"])
+    if isinstance(v, list):
+        return [_unjson(x) for x in v]
+    if isinstance(v, dict):
+        return dict((k, _unjson(x)) for k, x in v.items())
+    return v
+
+
+def run_layoutbuilder(ctx, case):
+    import json
+    from vlib import bridge_lb
+    b = ctx.lib
+    initial, resize = case["options"]
+    ctx.cover("lb_options", "%s/%s" % (initial, resize))
+    ctx.cover("lb_domain", "simple" if case["simple"] else "nested")
+    form = b.form_fromjson(json.dumps(case["form"]))
+    try:
+        lb = bridge_lb.LayoutBuilder(b, form, initial, resize)
+    except AkError as e:
+        ctx.violation("layoutbuilder-refused-form", {"form": case["form"], "error": e.msg[:200]})
+        return
+    expected = _unjson(case["expected"])
+    cmds, bounds = case["cmds"], case["bounds"]
+    for c in cmds:
+        ctx.cover("lb_command", c[0])
+    for _p, n in _walk_form(case["form"]):
+        ctx.cover("lb_form_class", n["class"])
+    ctx.nontrivial(len(expected) >= 2)
+    wrong_at = None
+    if case["wrong"] and cmds:
+        wrong_at = int(case["wrong_pos"] * len(cmds)) % len(cmds)
+    snaps = []
+    for i, c in enumerate(cmds):
+        if wrong_at == i and c[0] in ("int64", "float64", "boolean", "string"):
+            other = {"int64": ["string", "q"], "float64": ["boolean", True], "boolean": ["float64", 0.5],
+                     "string": ["int64", 3]}[c[0]]
+            try:
+                lb.cmd(other)
+                ctx.violation("layoutbuilder-accepted-wrong-type", {"form": case["form"], "expected_command": c[0],
+                                                                    "sent": other})
+            except AkError as e:
+                ctx.cover("lb_wrong_type", "raised:" + e.kind)
+                ctx.count("lb_wrong_type_commands_refused")
+            return
+        try:
+            lb.cmd(c)
+        except AkError as e:
+            ctx.violation("layoutbuilder-raised", {"form": case["form"], "command": c, "at": i, "error": e.msg[:200],
+                                                   "type": gen.typestr(case["T"])})
+            return
+        if (i + 1) in bounds and len(snaps) < 3 and (i * 7 + len(cmds)) % 3 == 0:
+            k = bounds.index(i + 1) + 1
+            try:
+                h = lb.snapshot()
+            except AkError as e:
+                ctx.violation("layoutbuilder-snapshot-raised", {"form": case["form"], "after": k, "error": e.msg[:200]})
+                return
+            snaps.append((k, h, b.describe_text(h)))
+    try:
+        h = lb.snapshot()
+    except AkError as e:
+        ctx.violation("layoutbuilder-snapshot-raised", {"form": case["form"], "after": len(expected), "error": e.msg[:200]})
+        return
+    snaps.append((len(expected), h, b.describe_text(h)))
+    for k, h, text in snaps:
+        ctx.count("lb_snapshots_checked")
+        if b.describe_text(h) != text:
+            ctx.violation("layoutbuilder-snapshot-changed", {"form": case["form"], "after": k})
+            return
+        d = b.describe(h)
+        try:
+            v = model.value(d)
+        except Exception as e:      # noqa
+            v = "<unreadable: %r>" % (e,)
+        if not model.same(v, expected[:k]):
+            ctx.violation("layoutbuilder-wrong-value", {"form": case["form"], "type": gen.typestr(case["T"]), "after": k,
+                                                        "expected": model.brief(expected[:k], 300),
+                                                        "got": model.brief(v, 300)})
+            return
+        ve = b.validityerror(h)
+        if ve:
+            ctx.violation("layoutbuilder-invalid-snapshot", {"form": case["form"], "validityerror": ve[:200]})
+            return
+    if not b.form_equal(lb.form(), form, True, True, True, False):
+        ctx.violation("layoutbuilder-form-differs", {"form": case["form"]})
+        return
+    ctx.sample({"mode": "layoutbuilder", "type": gen.typestr(case["T"]), "commands": len(cmds),
+                "snapshots": [k for k, _h, _t in snaps]}, cap=4)
+
+
+def _walk_form(f, path=()):
+    yield path, f
+    c = f.get("content")
+    if isinstance(c, dict):
+        for x in _walk_form(c, path + ("content",)):
+            yield x
+    cs = f.get("contents")
+    if isinstance(cs, dict):
+        cs = list(cs.values())
+    for i, x in enumerate(cs or []):
+        for y in _walk_form(x, path + (i,)):
+            yield y
 
 
 _CAPI = {}
@@ -255,6 +525,9 @@ def c_cmd(L, raw, c):
 
 
 def run_case(ctx, case):
+    if case["mode"] == "layoutbuilder":
+        ctx.cover("mode", "layoutbuilder")
+        return run_layoutbuilder(ctx, case)
     b = ctx.lib
     cmds = []
     for o in case["objs"]:
